@@ -256,7 +256,25 @@ int main(int argc, char ** argv)
                   bxdecay0::event_reader * rdp = nullptr;
                   if (sessions % 3 == 1) {
                     if (reused.is_configured()) reused.reset_configuration();
-                    if (sessions % 2 == 1 && !files.empty()) {
+                    if (sessions % 4 == 1 && N >= 1) {
+                      // an abandoned session first: the whole stream is opened, all events but the last k are read (so the reader sits in
+                      // one of the last files with events still unread), and the configuration is dropped there
+                      bxdecay0::event_reader::config_type all;
+                      all.event_files = files;
+                      try {
+                        reused.set_configuration(all);
+                        int leave = (int)(sessions / 4 % 2); // 0: stop after the first event, 1: leave exactly one unread
+                        int toread = leave ? N - 1 : 1;
+                        for (int q = 0; q < toread && reused.has_next_event(); q++) {
+                          bxdecay0::event ex;
+                          reused.load_next_event(ex);
+                        }
+                      } catch (std::exception &) {
+                      }
+                      if (reused.is_configured()) reused.reset_configuration();
+                      classes.insert(cls + "/after-abandoned-session");
+                    }
+                    if (sessions % 4 == 3 && !files.empty()) { // (never right after an abandoned session: the first configuration after it must be the real one)
                       // now and then the object first sees a configuration that raises half-way (the second file does not exist and the
                       // start index lies beyond the first file): the valid configuration that follows must behave as on a fresh object
                       bxdecay0::event_reader::config_type bad;
